@@ -69,3 +69,8 @@ Lemma jcs_escapes_agree :
           (combine gen_jcs_binary_escapes gen_jcs_ascii_escapes) = true
   /\ length gen_jcs_binary_escapes = 7%nat /\ gen_jcs_literals = ["true"; "false"; "null"].
 Proof. vm_compute. repeat split; reflexivity. Qed.
+
+(* ecsigner.getHasher: the signer hashes with the same function the verifier's curve table names *)
+Lemma sign_hashers_agree :
+  gen_sign_hashers = [("btcec.S256", "SHA256"); ("elliptic.P256", "SHA256"); ("elliptic.P384", "SHA384"); ("elliptic.P521", "SHA512")].
+Proof. reflexivity. Qed.
